@@ -112,24 +112,33 @@ namespace C03
 open Heap
 variable {α K : Type}
 
-/-- `heappush`, for every strict weak order `lt` (irreflexive, transitive, `¬ >` transitive; every
-    strict total order is one: `StrictWeak.of_total`): the heap invariant `∀ i > 0, ¬ a[i] < a[(i-1)/2]`
-    is preserved and the contents are the old contents plus the new element -/
-theorem C03_heappush_valid_perm {lt : α → α → Bool} (sw : StrictWeak lt) {h : Array α}
-    (hinv : HeapInv lt h) (x : α) :
+/-- the order hypothesis of the two theorems below, `StrictWeakOn lt P` (irreflexive, transitive and
+    `¬ >` transitive on the elements satisfying `P`), holds for every `lt` that is a strict total
+    order on the elements present: irreflexive, transitive, total on distinct elements -/
+theorem C03_strict_total_is_strict_weak {lt : α → α → Bool} {P : α → Prop}
+    (irrefl : ∀ a, P a → lt a a = false)
+    (trans : ∀ a b c, P a → P b → P c → lt a b = true → lt b c = true → lt a c = true)
+    (total : ∀ a b, P a → P b → a ≠ b → lt a b = true ∨ lt b a = true) : StrictWeakOn lt P :=
+  StrictWeakOn.of_total irrefl trans total
+
+/-- `heappush`, when `lt` is a strict weak order on the elements present (`P` holds of the heap's
+    elements and of the new one): the heap invariant `∀ i > 0, ¬ a[i] < a[(i-1)/2]` is preserved and
+    the contents are the old contents plus the new element -/
+theorem C03_heappush_valid_perm {lt : α → α → Bool} {P : α → Prop} (sw : StrictWeakOn lt P)
+    {h : Array α} (hall : ∀ y ∈ h.toList, P y) (hinv : HeapInv lt h) (x : α) (hx : P x) :
     HeapInv lt (heappush lt h x) ∧ (heappush lt h x).toList.Perm (x :: h.toList) :=
-  heappush_spec sw hinv x
+  heappush_spec_on sw (AllP.of_mem hall) hinv x hx
 
 /-- `heappop`: `none` on the empty heap; on a non-empty valid heap it returns an element `e` than
     which no element of the heap is smaller, leaves a valid heap, and old contents = `e` + new contents -/
-theorem C03_heappop_min_valid_perm {lt : α → α → Bool} (sw : StrictWeak lt) {h : Array α}
-    (hinv : HeapInv lt h) :
+theorem C03_heappop_min_valid_perm {lt : α → α → Bool} {P : α → Prop} (sw : StrictWeakOn lt P)
+    {h : Array α} (hall : ∀ y ∈ h.toList, P y) (hinv : HeapInv lt h) :
     (h.size = 0 → heappop lt h = none) ∧
     (0 < h.size → ∃ e h', heappop lt h = some (e, h') ∧ (∀ y ∈ h.toList, lt y e = false) ∧
       HeapInv lt h' ∧ h.toList.Perm (e :: h'.toList)) := by
   refine ⟨heappop_empty lt h, fun hne => ?_⟩
-  obtain ⟨h', hp, hinv', hperm⟩ := heappop_spec sw hinv hne
-  exact ⟨_, h', hp, heappop_min sw hinv hp, hinv', hperm⟩
+  obtain ⟨h', hp, hinv', hperm⟩ := heappop_spec_on sw (AllP.of_mem hall) hinv hne
+  exact ⟨_, h', hp, heappop_min_on sw (AllP.of_mem hall) hinv hp, hinv', hperm⟩
 
 /-- fuel: the loops of the port stop by themselves within the fuel it passes (the array size) —
     the results are those of *any* fuel `≥ len - 1`, for every order and every array -/
